@@ -62,10 +62,14 @@ def make_world():
         if isinstance(sym, str):
             for f in (lambda: w.q.Unit(sym), lambda: w.q.Quantity(f"1 {sym}")):
                 try:
-                    f()
-                    raise AssertionError(f"{sym} known before declaration")
+                    r = f()
                 except ValueError:
-                    pass
+                    continue
+                from ..world import SetupViolated
+                raise SetupViolated('undeclared-symbol-resolves',
+                                    f"the symbol {sym!r} is not declared, "
+                                    f"but Unit / Quantity text with it gives "
+                                    f"{r!r}")
     for ev in USER:
         w.must(ev)
     w.sf = {}
